@@ -97,6 +97,8 @@ func merge(src []*hintFileReader, dst string, ct *CollisionTable, hintState *int
 	n := len(src)
 	datasize := uint32(0)
 	hp := make([]*mergeReader, n)
+	// the readers that have an item to offer: a hint file without items contributes nothing to the merge
+	live := make([]*mergeReader, 0, n)
 	for i := 0; i < n; i++ {
 		err := src[i].open()
 		if err != nil {
@@ -105,10 +107,13 @@ func merge(src []*hintFileReader, dst string, ct *CollisionTable, hintState *int
 		}
 		hp[i] = &mergeReader{src[i], nil}
 		hp[i].curr, err = src[i].next()
-		hp[i].curr.Pos.ChunkID = src[i].chunkID
 		if err != nil {
 			logger.Errorf("%s", err.Error())
 			return nil, err
+		}
+		if hp[i].curr != nil {
+			hp[i].curr.Pos.ChunkID = src[i].chunkID
+			live = append(live, hp[i])
 		}
 		if src[i].datasize > datasize {
 			datasize = src[i].datasize
@@ -124,7 +129,7 @@ func merge(src []*hintFileReader, dst string, ct *CollisionTable, hintState *int
 	}
 
 	mw := newMergeWriter(w, ct)
-	h := mergeHeap(hp)
+	h := mergeHeap(live)
 	heap.Init(&h)
 	for len(h) > 0 {
 		if *hintState&HintStateGC != 0 && !forGC {
